@@ -11,7 +11,7 @@
      adm                        one RPC request (a case of Admission.tla realised at real magnitudes) with the
                                 verdict of the real Validate method and, if admitted, the constructor's
                                 result and the verdict of the real consensus validation
-     v1form v1renew2 v1renew3 v1pay   rhp/v2, rhp/v3 (independent lines)
+     v1form v1renew2 v1renew3 v1pay   rhp/v2, rhp/v3 (independent lines; targets random or chosen by TaxInversion.tla)
      limits                     MinRenterAllowance / MaxHostCollateral (independent lines)
 
    The trace is stateful per sequence: `cur` is the contract this specification
@@ -134,9 +134,26 @@ V1Contract(t, l) ==
   /\ Check(t.ws = t.end /\ t.we = t.end + t.window, l, "v1 contract window")
   /\ Check(t.accepted = (t.payout # Zero /\ ConsensusValidV1Payout(t.payout, SumSeq(t.valid), SumSeq(t.missed)) /\ t.we > t.ws), l,
            "real v1 contract validation disagrees with the transcribed rule")
+  \* the same contract under a state before the tax hardfork: the constructors take no state and aim at
+  \* the rule in force since the hardfork, so here only the rule itself is bound to the real code
+  /\ Check(t.taxPre = TaxV1Pre(t.payout), l, "consensus FileContractTax before the tax hardfork is not payout x float64(0.039) rounded down to a multiple of the siafund count")
+  /\ Check(t.accPre = (t.payout # Zero /\ ConsensusValidV1PayoutPre(t.payout, SumSeq(t.valid), SumSeq(t.missed)) /\ t.we > t.ws), l,
+           "real v1 contract validation before the tax hardfork disagrees with the transcribed rule")
+\* Lines whose target was chosen by TaxInversion.tla (t.t0 >= 0; random lines have t.t0 = -1): the
+\* target is the model's target t0 lifted by k whole periods, and the payout must be one of the
+\* model's solutions Sol(t0) lifted by k periods (TaxInversion!Periodic).  Sol is recomputed here.
+TE == INSTANCE TaxEquation
+V1Inversion(t, l) ==
+  IF t.t0 < 0 THEN TRUE ELSE
+  /\ Check(t.k = Zero \/ t.t0 >= TE!PeriodT, l, "case: a target of the first period was lifted")
+  /\ Check(t.target = Add(FromInt(t.t0), Mul(t.k, FromInt(TE!PeriodT))) /\ SumSeq(t.valid) = t.target, l,
+           "case: the valid outputs do not add up to the model's target")
+  /\ Check(\E s \in TE!Sol(t.t0) : t.payout = Add(FromInt(s), Mul(t.k, FromInt(TE!PeriodP))), l,
+           "tax inversion: wrong payout, target class " \o TE!Class(t.t0))
 V1Form(t, l) ==
   IF t.panic THEN Reject(l, "PrepareContractFormation panicked") ELSE
   /\ V1Contract(t, l)
+  /\ V1Inversion(t, l)
   /\ Check(t.payout = Add(t.target, TaxV1(t.payout)), l, "tax-adjusted payout misses its target")
   /\ Check(t.valid[1] = t.rp /\ t.valid[2] = Add(t.cp, t.coll), l, "formation valid outputs")
   /\ Check(t.missed[1] = t.rp /\ t.missed[2] = Add(t.cp, t.coll) /\ t.missed[3] = Zero, l, "formation missed outputs")
@@ -147,6 +164,7 @@ V1Renew2(t, l) ==
       basePrice == Mul(t.sp, bytesBlocks)  baseColl == Mul(t.pc, bytesBlocks)
       hostValid == Add(Add(t.cp, basePrice), Add(baseColl, t.newColl)) IN
   /\ V1Contract(t, l)
+  /\ V1Inversion(t, l)
   /\ Check(t.basePrice = basePrice /\ t.bp2 = basePrice, l, "base price is not storage price x filesize x extension")
   /\ Check(t.hv = hostValid /\ t.vm = Add(basePrice, baseColl) /\ Add(t.hm, t.vm) = t.hv, l, "CalculateHostPayouts")
   /\ Check(t.valid[1] = t.rp /\ t.valid[2] = hostValid, l, "renewal valid outputs")
@@ -167,6 +185,7 @@ V1Renew3(t, l) ==
   /\ Check(t.err = Lt(newColl, t.minNew), l, "renewal fails iff the new collateral is below the requested minimum")
   /\ IF t.err THEN TRUE ELSE
       /\ V1Contract(t, l)
+      /\ V1Inversion(t, l)
       /\ Check(t.basePrice = basePrice, l, "base price")
       /\ Check(t.valid[1] = t.rp /\ t.valid[2] = hostValid, l, "renewal valid outputs")
       /\ Check(t.missed[1] = t.rp /\ t.missed[2] = Add(t.cp, newColl) /\ t.missed[3] = Add(basePrice, baseColl), l, "renewal missed outputs")
